@@ -48,14 +48,19 @@ FINDINGS = {
     "absent-left-int-divide-returns-zero": ('F_absent_left_zero "//"', [("//", "absent", "int"), ("//", "absent", "float")]),
     "absent-left-modulus-returns-zero": ('F_absent_left_zero "%"', [("%", "absent", "int"), ("%", "absent", "float")]),
     "absent-left-power-returns-zero": ('F_absent_left_zero "**"', [("**", "absent", "int"), ("**", "absent", "float")]),
-    "absent-left-dotminus-negates": ("F_dotminus_absent_left", [(".-", "absent", "int"), (".-", "absent", "float")]),
-    "empty-left-dottimes-negates": ("F_dottimes_empty_left", [(".*", "void", "int"), (".*", "void", "float")]),
     "xor-collection-null-asymmetric": ("F_xor_collection_null", [("^", "array", "null"), ("^", "map", "null"), ("^", "null", "array"), ("^", "null", "map")]),
     "max-empty-beats-number": ("F_max_empty_number", _fp_max([("void", "int"), ("void", "float"), ("int", "void"), ("float", "void")])),
     "max-error-null-returns-null": ("F_max_error_null", _fp_max([("error", "null"), ("null", "error")])),
     "power-error-absent-returns-absent": ("F_pow_error_absent", [("**", "error", "absent"), ("**", "absent", "error")]),
 }
 FOOT = {cell: cls for cls, (_, cells) in FINDINGS.items() for cell in cells}
+# repaired in /repo (fix: 481d57d86): no longer excludable anywhere -- the theorems cover these cells unconditionally; a regression
+# breaks TableProofs and is reported under the old class name, which no KNOWN_FINDINGS line suppresses
+REPAIRED = {
+    "absent-left-dotminus-negates": [(".-", "absent", "int"), (".-", "absent", "float")],
+    "empty-left-dottimes-negates": [(".*", "void", "int"), (".*", "void", "float")],
+}
+REPAIRED_FOOT = {cell: cls for cls, cells in REPAIRED.items() for cell in cells}
 
 # DSL spelling of one representative per kind (func has none: function literals are not first-class values in expressions)
 DSL_REP = {"int": ["3", "-7"], "float": ["2.5", "-0.25"], "bool": ["true", "false"], "void": ['""'], "string": ['"abc"', '"17"'],
@@ -209,10 +214,6 @@ def refuted(t, cls):
     if cls.startswith("absent-left-") and cls.endswith("returns-zero"):
         op = cells[0][0]
         return t.has2(op, "absent", "int", "Int0") and t.has2(op, "absent", "float", "Float0") and not t.has2(op, "absent", "int", "Arg2")
-    if cls == "absent-left-dotminus-negates":
-        return t.has2(".-", "absent", "int", "NegArg2") and not t.has2(".-", "absent", "int", "Arg2")
-    if cls == "empty-left-dottimes-negates":
-        return t.has2(".*", "void", "int", "NegArg2") and not t.has2(".*", "void", "int", "Arg2")
     if cls == "xor-collection-null-asymmetric":
         return t.kinds2("^", "array", "null") != t.kinds2("^", "null", "array") or t.kinds2("^", "map", "null") != t.kinds2("^", "null", "map")
     if cls == "max-empty-beats-number":
@@ -403,6 +404,86 @@ def mlr_crosscheck(ctx, t):
     return bad, n
 
 
+# ------------------------------------------------------------------------------------------ source literals vs behaviour
+HELPER_CLASS = {"_absn": "Absent", "_null": "Null", "_void": "Void", "_1___": "Arg1", "_2___": "Arg2", "_n2__": "NegArg2", "_s1__": "StrArg1",
+                "_s2__": "StrArg2", "_i0__": "Int0", "_f0__": "Float0", "_true": "True", "_fals": "False",
+                "_absn1": "Absent", "_zero1": "Int0", "_null1": "Null", "_void1": "Void", "_1u___": "Arg1",
+                "_math_unary_absn1": "Absent", "_math_unary_null1": "Null", "_math_unary_void1": "Void"}
+OP_BIF2 = {"+": "BIF_plus_binary", "-": "BIF_minus_binary", "*": "BIF_times", "/": "BIF_divide", "//": "BIF_int_divide", "%": "BIF_modulus",
+           "**": "BIF_pow", ".+": "BIF_dot_plus", ".-": "BIF_dot_minus", ".*": "BIF_dot_times", "./": "BIF_dot_divide", "&": "BIF_bitwise_and",
+           "|": "BIF_bitwise_or", "^": "BIF_bitwise_xor", "<<": "BIF_left_shift", ">>": "BIF_signed_right_shift", ">>>": "BIF_unsigned_right_shift",
+           ".": "BIF_dot", "min_binary": "BIF_min_binary", "max_binary": "BIF_max_binary", "==": "BIF_equals", "!=": "BIF_not_equals",
+           ">": "BIF_greater_than", ">=": "BIF_greater_than_or_equals", "<": "BIF_less_than", "<=": "BIF_less_than_or_equals", "<=>": "BIF_cmp",
+           "atan2": "BIF_atan2", "roundm": "BIF_roundm"}
+OP_BIF1 = dict({"+u": "BIF_plus_unary", "-u": "BIF_minus_unary", "~": "BIF_bitwise_not", "bitcount": "BIF_bitcount"}, **{m: "BIF_" + m for m in MATH1})
+ROW_NAMES = ["INT", "FLOAT", "BOOL", "VOID", "STRING", "BYTES", "ARRAY", "MAP", "FUNC", "ERROR", "NULL", "ABSENT"]
+
+
+def source_crosscheck(ctx, t):
+    """Read the *_dispositions literals of pkg/bifs/*.go as text and compare every cell whose entry is one of the shared helpers
+    (_absn, _1___, _2___, _n2__, _void, _null, _i0__, _f0__, type-error functions ...) with the behavioural class of the table.
+    Independent of implrun: a mis-classification in c08.go, a mislabelled row comment or a matrix wired to another operator shows up here."""
+    src = ""
+    for f in sorted((REPO / "pkg" / "bifs").glob("*.go")):
+        if not f.name.endswith("_test.go"):
+            src += f.read_text(errors="replace") + "\n"
+    helper = dict(HELPER_CLASS)
+    for m in re.finditer(r"func (\w+)\([^)]*\) \*mlrval\.Mlrval \{\n\treturn mlrval\.From(?:TypeError\w*|Not\w+Error)\(", src):
+        helper[m.group(1)] = "Error"
+    mats, vecs = {}, {}
+    for m in re.finditer(r"(\w+) = \[mlrval\.MT_DIM\]\[mlrval\.MT_DIM\]BinaryFunc\{\n(.*?)\n\t?\}", src, re.S):
+        rows = re.findall(r"/\*(\w+)\s*\*/\s*\{([^}]*)\}", m.group(2))
+        if rows:
+            mats[m.group(1)] = [(r[0], [x.strip() for x in r[1].split(",") if x.strip()]) for r in rows]
+    for m in re.finditer(r"(\w+) = \[mlrval\.MT_DIM\](?:UnaryFunc|mathLibUnaryFuncWrapper)\{\n(.*?)\n\t?\}", src, re.S):
+        rows = re.findall(r"/\*(\w+)\s*\*/\s*(\w+),", m.group(2))
+        if rows:
+            vecs[m.group(1)] = rows
+    bif2 = {m.group(1): m.group(2) for m in re.finditer(r"func (BIF_\w+)\(input1, input2 \*mlrval\.Mlrval\) \*mlrval\.Mlrval \{\n\treturn \(?(\w+)\[input1\.Type\(\)\]\[input2\.Type\(\)\]\)?\(input1, input2\)", src)}
+    bif1 = {m.group(1): m.group(2) for m in re.finditer(r"func (BIF_\w+)\(input1 \*mlrval\.Mlrval\) \*mlrval\.Mlrval \{\n\treturn (\w+)\[input1\.Type\(\)\]\(input1", src)}
+    bad, ncell, nmat = [], 0, 0
+    for op, bif in OP_BIF2.items():
+        mat = mats.get(bif2.get(bif, ""))
+        if mat is None:
+            bad.append({"operator": op, "why": "no disposition matrix literal found behind %s" % bif})
+            continue
+        nmat += 1
+        if [r[0] for r in mat] != ROW_NAMES or any(len(r[1]) != 12 for r in mat):
+            bad.append({"operator": op, "matrix": bif2[bif], "why": "row comments / dimensions are not the 12 kinds in order", "rows": [r[0] for r in mat]})
+            continue
+        for i, (_, row) in enumerate(mat):
+            for j, h in enumerate(row):
+                want = helper.get(h)
+                c = t.B.get((op, KINDS[i], KINDS[j]))
+                if want is None or c is None:
+                    continue
+                ncell += 1
+                if want not in c["cls"]:
+                    bad.append({"operator": op, "matrix": bif2[bif], "cell": [KINDS[i], KINDS[j]], "source_entry": h, "source_class": want, "behaviour": c["cls"]})
+    for op, bif in OP_BIF1.items():
+        vec = vecs.get(bif1.get(bif, ""))
+        if vec is None:
+            bad.append({"operator": op, "why": "no disposition vector literal found behind %s" % bif})
+            continue
+        nmat += 1
+        if [r[0] for r in vec] != ROW_NAMES:
+            bad.append({"operator": op, "vector": bif1[bif], "why": "row comments are not the 12 kinds in order"})
+            continue
+        for i, (_, h) in enumerate(vec):
+            want, c = helper.get(h), t.U.get((op, KINDS[i]))
+            if want is None or c is None:
+                continue
+            ncell += 1
+            if want not in c["cls"]:
+                bad.append({"operator": op, "vector": bif1[bif], "cell": [KINDS[i]], "source_entry": h, "source_class": want, "behaviour": c["cls"]})
+    ctx.cov["correspondence"]["source_literal_tables"] = nmat
+    ctx.cov["correspondence"]["source_literal_cells_compared"] = ncell
+    ctx.cov["correspondence"]["source_literal_mismatches"] = len(bad)
+    ctx.dist("source_literal_cells", ncell)
+    for b in bad[:3]:
+        ctx.violation(dict(b, broken="source-literal cross-check (pkg/bifs table literal and observed behaviour of the cell differ)"), found_input=False)
+
+
 # ------------------------------------------------------------------------------------------ the check
 def build_table(ctx):
     rc, out, err = sh([ctx.implrun(), "c08-matrix"], timeout=300)
@@ -419,13 +500,13 @@ def report_rule_failures(ctx, t, fails):
     by_class = {}
     for f in fails:
         cell = f["cell"]
-        cls = FOOT.get(tuple(cell)) if len(cell) == 3 else None
+        cls = (FOOT.get(tuple(cell)) or REPAIRED_FOOT.get(tuple(cell))) if len(cell) == 3 else None
         if cls is None:
             cls = "unlisted:%s:%s" % (f["rule"], ":".join(cell))
         by_class.setdefault(cls, []).append(f)
     n = 0
     # deviations that are not among the listed classes first
-    for cls, fs in sorted(by_class.items(), key=lambda kv: (not kv[0].startswith("unlisted:"), kv[0])):
+    for cls, fs in sorted(by_class.items(), key=lambda kv: (not (kv[0].startswith("unlisted:") or kv[0] in REPAIRED), kv[0])):
         f = fs[0]
         cell = f["cell"]
         src = t.B.get(tuple(cell)) if len(cell) == 3 else t.U.get(tuple(cell)) if len(cell) == 2 else t.V.get((cell[0], tuple(cell[1:])))
@@ -488,6 +569,7 @@ def run(ctx):
     ctx.cov["correspondence"]["dsl_cell_mismatches"] = len(bad)
     for b in bad[:3]:
         ctx.violation(dict(b, broken="table-vs-mlr (the BIF table and the DSL evaluator disagree)", input={"mlr": "mlr -n put 'end{print %s}'" % b.get("expr")}))
+    source_crosscheck(ctx, t)
     from checks import c08_assign
     c08_assign.run(ctx)
 
@@ -500,7 +582,7 @@ def replay(ctx, path):
     t = build_table(ctx)
     fails = rule_failures(t)
     cls = obj.get("class")
-    mine = [f for f in fails if (FOOT.get(tuple(f["cell"])) if len(f["cell"]) == 3 else None) == cls
+    mine = [f for f in fails if ((FOOT.get(tuple(f["cell"])) or REPAIRED_FOOT.get(tuple(f["cell"]))) if len(f["cell"]) == 3 else None) == cls
             or "unlisted:%s:%s" % (f["rule"], ":".join(f["cell"])) == cls]
     cmd = (obj.get("input") or {}).get("mlr")
     if cmd:
